@@ -277,7 +277,7 @@ SEM_CFG = """CONSTANTS NTS = {%s}
  TS = {%s}
  MAXBODY = %d
  MAXRULES = %d
- WEIGHTS = {%s}
+ WEIGHTS %s
  SRNAME = "%s"
  L = 3
  H = 3
@@ -294,7 +294,8 @@ def semantic_core(report, invariants, nts=("S", "A"), ts=("a",), maxbody=2, maxr
     d = fresh("fam")
     f = d / "family.ndjson"
     cfg = SEM_CFG % (", ".join(f'"{x}"' for x in nts), ", ".join(f'"{x}"' for x in ts), maxbody, maxrules,
-                     ", ".join(str(w) for w in weights), sr, "\n".join(f"INVARIANT {i}" for i in invariants))
+                     (weights if isinstance(weights, str) else "= {" + ", ".join(str(w) for w in weights) + "}"), sr,
+                     "\n".join(f"INVARIANT {i}" for i in invariants))
     res = run_tlc("MCGrammarSem", cfg, env={"FAMILY_FILE": str(f)}, timeout=3000)
     if not res.ok or res.left != 0:
         raise MachineryError("MCGrammarSem: the oracle disagrees with the literal definition (spec-level):\n" + res.errhead)
